@@ -72,6 +72,7 @@ func New(o Opts) *Server {
 		opt.IdleTimeout = 0
 	}
 	opt.DisablePrintRoute = true
+	opt.NoDefaultDate = true // observations must not depend on wall-clock time
 	for _, m := range o.Mods {
 		m(opt)
 	}
